@@ -78,9 +78,6 @@ ASSUMPTIONS = [
 EXPLORER_OPTS = {"timeout_ms": 20000, "max_paths": 20000}
 BUDGET_S = {"quick": 500, "thorough": 2300}
 
-KNOWN = set(x for x in os.environ.get("VERIF_KNOWN", "").split(",") if x)
-
-
 def _known_ids():
     return set(x for x in os.environ.get("VERIF_KNOWN", "").split(",") if x)
 
